@@ -51,6 +51,11 @@ func node(tmpl string, n *gen.HostNodes) *specs.DeviceNode {
 		return &specs.DeviceNode{Path: "/dev/ctr-b", HostPath: n.Path("block"), Permissions: "rw"}
 	case "major-only-char":
 		return &specs.DeviceNode{Path: n.Path("char"), Major: 77, Minor: 7}
+	case "minor-only-char":
+		// a minor number without a major: the major is unspecified, so the numbers come from the host node
+		return &specs.DeviceNode{Path: n.Path("char"), Minor: 9}
+	case "minor-only-typed-char":
+		return &specs.DeviceNode{Path: n.Path("char2"), Type: "c", Minor: 9}
 	case "hostpath-char-mode-uid-gid":
 		// every optional (pointer) member set; the mode as a generator that copies st_mode records it (S_IFCHR|0666)
 		fm, uid, gid := os.FileMode(0o20666), uint32(7), uint32(8)
@@ -59,7 +64,7 @@ func node(tmpl string, n *gen.HostNodes) *specs.DeviceNode {
 	panic(tmpl)
 }
 
-var nodeTemplates = []string{"path-only-char", "hostpath-char", "type-only-block", "fully-specified", "hostpath-fifo", "type-p", "hostpath-block-perm", "major-only-char", "hostpath-char-mode-uid-gid"}
+var nodeTemplates = []string{"path-only-char", "hostpath-char", "type-only-block", "fully-specified", "hostpath-fifo", "type-p", "hostpath-block-perm", "major-only-char", "hostpath-char-mode-uid-gid", "minor-only-char", "minor-only-typed-char"}
 
 func usesHostPath(t string) bool { return strings.HasPrefix(t, "hostpath") }
 
@@ -374,7 +379,7 @@ func main() {
 				if !r.Thorough() && sn != "none" && sn != "path-only-char" && sn != "type-only-block" && sn != "hostpath-char" {
 					continue
 				}
-				if ver == "1.0.0" && !r.Thorough() && !(dn == "hostpath-char" || dn == "fully-specified" || dn == "type-only-block" || dn == "hostpath-char-mode-uid-gid") {
+				if ver == "1.0.0" && !r.Thorough() && !(dn == "hostpath-char" || dn == "fully-specified" || dn == "type-only-block" || dn == "hostpath-char-mode-uid-gid" || dn == "minor-only-typed-char") {
 					continue
 				}
 				for _, h := range histories {
